@@ -110,6 +110,9 @@ def schedules(draw, max_step=900):
             'choices': draw(st.lists(st.integers(0, 4), max_size=10))}
 
 
+STEPS_AFTER_STOP = 8000     # a stopped system drains in a few hundred steps
+
+
 def analyse(scenario, result):
     """([(sig, what)], labels)"""
     sched = result.sched
@@ -169,6 +172,11 @@ def analyse(scenario, result):
     if landed == 'before-job-thread-ran':
         landed = 'before-run-loop'
     labels.append('landed:' + landed)
+    if result.outcome == 'step-limit' and \
+            sched.steps - log[stop_ret][1] < STEPS_AFTER_STOP:
+        # a busy script used the step budget up before the stop; what is
+        # left is too little to tell a lost stop from a slow one
+        return problems, labels + ['inconclusive-step-budget']
     if result.outcome != 'finished':
         where = {name: (state, waiting, line) for name, (state, waiting, line)
                  in (sched.detail or {}).items()}
@@ -322,7 +330,21 @@ def fixed_scenarios():
                     'scripts': {'first': SHAPES[shape], 'second': SECOND,
                                 'bg': BACKGROUND},
                     'clients': [ops]})
+    # the stop races with the end of a short script, whose job object is then
+    # run again: that second run was never a stop target
+    for stop in ('agent_stop', 'stop_current', 'stop_job'):
+        ops = [['add', 'first'], ['steps', 0],
+               [stop] if stop != 'stop_job' else ['stop_job', 'first'],
+               ['pause', 3.0], ['add', 'first', 'reuse'], ['wait_idle', 40]]
+        out.append({'population': POP, 'shape': 'straight', 'tick': 0.25,
+                    'work': {'set_power': 0}, 'start': [7, 58, 30],
+                    'scripts': {'first': SHAPES['straight'], 'second': SECOND,
+                                'bg': BACKGROUND},
+                    'clients': [ops]})
     return out
+
+
+RACE_WITH_END = (5, 6, 7)     # indexes in fixed_scenarios()
 
 
 def enumerate_fixed(acc, index, part, parts, depth):
@@ -348,8 +370,8 @@ def plan(tier, seed_value):
     for k in range(16):
         specs.append({'kind': 'random', 'seed': seed_value * 1000 + k,
                       'examples': per})
-    if tier == 'thorough':
-        for index in range(len(fixed_scenarios())):
+    for index in range(len(fixed_scenarios())):
+        if tier == 'thorough' or index in RACE_WITH_END:
             for part in range(8):
                 specs.append({'kind': 'enumerate', 'index': index,
                               'part': part, 'parts': 8, 'depth': 1})
